@@ -666,6 +666,9 @@ def _r8(ctx):
             if name in WS_FILTERS:
                 # break_long_words=False lives in utilities._stmwrap (checked below)
                 continue
+            if name in ("prefix", "suffix") and len(args) == 1 and not kw and args[0][0] == "const" and isinstance(args[0][1], str) and not args[0][1].strip():
+                # naunet's own p + x / x + s filters with blanks / line breaks only: layout around the statement, like template text
+                continue
             if name == "replace" and len(args) == 2 and all(a[0] == "const" for a in args):
                 reps.append((args[0][1], args[1][1]))
                 continue
@@ -748,6 +751,9 @@ MUTANTS = [
     {"name": "cool-sign", "file": T, "old": 'rhs[n_spec] += f" - {crate_sym}[{cidx}] * {rsym_mul}"', "new": 'rhs[n_spec] += f" + {crate_sym}[{cidx}] * {rsym_mul}"', "rules": ["R7"]},
     {"name": "skip-catalyst", "file": T, "old": "            for specidx in rspecidx:\n                rhs[specidx] += f\" - ", "new": "            for specidx in rspecidx:\n                if specidx in pspecidx:\n                    continue\n                rhs[specidx] += f\" - ", "rules": ["R2"]},
     {"name": "fex-slice", "file": TEMPLATES["cvode"], "old": "    {% for eq in ode.fex -%}\n        {{ eq | stmwrap(80, 8) }}", "new": "    {% for eq in ode.fex[1:] -%}\n        {{ eq | stmwrap(80, 8) }}", "rules": ["R8"]},
+    {"name": "fex-pipeline-sliced", "file": TEMPLATES["cvode"], "old": "    {% for eq in ode.fex -%}\n        {{ eq | stmwrap(80, 8) }}\n    {% endfor %}\n", "new": "    {{ ode.fex[1:] | map(\"stmwrap\", 80, 8) | map(\"suffix\", \"\\n    \") | join }}\n", "rules": ["R8"]},
+    {"name": "fex-pipeline-rewrites-text", "file": TEMPLATES["cvode"], "old": "    {% for eq in ode.fex -%}\n        {{ eq | stmwrap(80, 8) }}\n    {% endfor %}\n", "new": "    {{ ode.fex | map(\"replace\", \" - \", \" + \") | map(\"stmwrap\", 80, 8) | map(\"suffix\", \"\\n    \") | join }}\n", "rules": ["R8"]},
+    {"name": "fex-pipeline-suffix-text", "file": TEMPLATES["cvode"], "old": "    {% for eq in ode.fex -%}\n        {{ eq | stmwrap(80, 8) }}\n    {% endfor %}\n", "new": "    {{ ode.fex | map(\"stmwrap\", 80, 8) | map(\"suffix\", \" + 0.0\\n    \") | join }}\n", "rules": ["R8"]},
     {"name": "kernel-replace-swapped", "file": TEMPLATES["cvode"], "old": 'replace("y[IDX", "y_cur[IDX") | stmwrap(80, 12)', "new": 'replace("y_cur[IDX", "y[IDX") | stmwrap(80, 12)', "rules": ["R8"]},
     {"name": "stmwrap-breaks-words", "file": "naunet/utilities.py", "old": "break_long_words=False", "new": "break_long_words=True", "rules": ["R8"]},
     {"name": "textwrapper-breaks-words", "file": "naunet/utilities.py", "old": "wrappedlist = wrap(text, width - indent, break_long_words=False)", "new": "import textwrap\n    wrappedlist = textwrap.TextWrapper(width=width - indent).wrap(text)", "rules": ["R8"]},
@@ -792,5 +798,6 @@ BENIGN = [
     {"name": "n-eqns-int-flag", "file": T, "old": "n_eqns = max(n_spec + has_thermal, 1)", "new": "n_eqns = max(1, n_spec + int(has_thermal))"},
     {"name": "numdens-braced-loop", "file": 'naunet/templates/base/cpp/src/naunet_physics.cpp.j2', "old": '    double numdens = 0.0;\n\n    for (int i = 0; i < NSPECIES; i++) numdens += y[i];\n    return numdens;\n', "new": '    double total = 0.;\n    for (int k = 0; k < NSPECIES; ++k) {\n        total = total + y[k];\n    }\n    return total;\n'},
     {"name": "reaction-loop-by-index", "file": T, "old": 'for rl, react in enumerate(tqdm(reactions, desc="Preparing ODE...")):', "new": 'for rl in range(len(reactions)):\n            react = reactions[rl]'},
+    {"name": "fex-map-join-pipeline", "file": TEMPLATES["cvode"], "old": "    {% for eq in ode.fex -%}\n        {{ eq | stmwrap(80, 8) }}\n    {% endfor %}\n", "new": "    {{ ode.fex | map(\"stmwrap\", 80, 8) | map(\"suffix\", \"\\n    \") | join }}\n"},
     {"name": "template-reindent", "file": TEMPLATES["cvode"], "old": "    {% for eq in ode.fex -%}\n        {{ eq | stmwrap(80, 8) }}", "new": "    {% for eq in ode.fex -%}\n      {{ eq|stmwrap(80, 6) }}"},
 ]
